@@ -5,17 +5,18 @@
       fault schedule (drops, duplicates, reorderings, in any number): the receiver's file is always
       a block prefix of the sender's, success of the receiver means the exact file, success of the
       sender implies success of the receiver ([C04_closed_system_safe], files up to 65535 blocks);
-    - it is LIVE without faults, with any ONE lost datagram and with any ONE repeated datagram,
-      DATA or ACK, wherever it falls ([C04_no_loss_completes], [C04_one_lost_data_completes],
-      [C04_one_lost_ack_completes], [C04_one_repeated_data_completes], [C04_one_repeated_ack_completes];
-      duplicate-packets mode off), the lost final ACK being the exception RFC 1350 allows;
+    - it is LIVE without faults and with any ONE disturbed datagram, DATA or ACK, wherever it
+      falls - lost, repeated, or held back and released behind its successor (reordered):
+      [C04_no_loss_completes], [C04_one_lost_*], [C04_one_repeated_*], [C04_one_reordered_*],
+      summed up in [C04_single_fault] (duplicate-packets mode off; time-outs at quiescence); a lost
+      or forever-held final ACK is the exception RFC 1350 allows: the receiver holds the complete
+      file, the sender gives up;
     - the local mechanisms of recovery (stale ACKs inert and free, retry budget counts failed
       receives only, repeated block re-triggers the ACK).
-    What is proved only on a finite domain (exhaustive computation inside Coq): a single
-    reordered (held and swapped) datagram, on small transfers ([C04_single_fault_small]).  The
-    general statement for reorderings, and for several faults within the retry budget, is NOT
-    proved ([C04_single_fault_statement] stays visible, its instances for losses and repetitions
-    are proved); beyond that it is decided by the W-PAIR co-simulation suite. *)
+    What is NOT proved: liveness under SEVERAL faults within the retry budget (the property's
+    general clause) and in duplicate-packets mode.  For those the safety theorem holds, the
+    finite enumeration [C04_single_fault_small] (independent of the round induction) stands, and
+    the W-PAIR co-simulation suite decides seeded multi-fault schedules against the real workers. *)
 From Tftp Require Import Base.Prelude Model.Types Model.Consts Model.Codec Model.Window Model.Worker Model.Spec
   Model.Server Model.Net Proofs.CodecP Proofs.SpecP Proofs.WindowP Proofs.SendP Proofs.RecvP Proofs.NetP
   Proofs.CosimP Proofs.CosimLive.
@@ -128,9 +129,25 @@ Theorem C04_one_repeated_ack_completes : forall sc rc F,
     r_phase (p_r p) = RDone OutOk /\ written_bytes (w_file (r_w (p_r p))) = F /\ s_phase (p_s p) = SDone OutOk.
 Proof. exact cosim_ack_dup. Qed.
 
-(** The full closed-system statement for every kind of single fault (NOT proved for
-    reorderings; kept visible): for every file, block size,
-    window size and every single fault, the co-simulation ends like the finite instances above. *)
+Theorem C04_one_reordered_data_completes : forall sc rc F,
+  wf_params (s_blk sc) (s_ws sc) -> r_blk rc = s_blk sc -> r_ws rc = s_ws sc -> s_check sc = false ->
+  s_fails sc = [] -> r_fails rc = [] -> s_rep sc = 1 -> r_rep rc = 1 -> 0 < s_tmo sc ->
+  forall i, exists fuel,
+    let p := pair_run sc rc [(i, NfHold)] [] fuel (pair_init sc rc [(i, NfHold)] F) in
+    r_phase (p_r p) = RDone OutOk /\ written_bytes (w_file (r_w (p_r p))) = F /\ s_phase (p_s p) = SDone OutOk.
+Proof. exact cosim_data_hold. Qed.
+Theorem C04_one_reordered_ack_completes : forall sc rc F,
+  wf_params (s_blk sc) (s_ws sc) -> r_blk rc = s_blk sc -> r_ws rc = s_ws sc -> s_check sc = false ->
+  s_fails sc = [] -> r_fails rc = [] -> s_rep sc = 1 -> r_rep rc = 1 -> 0 < s_tmo sc ->
+  forall i, exists fuel,
+    let p := pair_run sc rc [] [(i, NfHold)] fuel (pair_init sc rc [] F) in
+    r_phase (p_r p) = RDone OutOk /\ written_bytes (w_file (r_w (p_r p))) = F /\
+    (s_phase (p_s p) = SDone OutOk \/ ch_n (p_rs p) = i + 1).
+Proof. exact cosim_ack_hold. Qed.
+
+(** The closed-system statement for every kind of single fault of the network model (delivered,
+    lost, repeated, held back), either direction, every position, every file, block size and
+    window size: the receiving side completes and keeps its file. *)
 Definition C04_single_fault_statement : Prop :=
   forall (blk ws : N) (F : bytes) (dir : bool) (i : N) (k : fault), 0 < blk -> 1 <= ws <= 65535 ->
   exists fuel,
@@ -140,19 +157,8 @@ Definition C04_single_fault_statement : Prop :=
     let f2 := if dir then [] else [(i, k)] in
     let p := pair_run sc rc f1 f2 fuel (pair_init sc rc f1 F) in
     r_phase (p_r p) = RDone OutOk /\ recv_final_file rc (p_r p) <> None.
-
-(** ... and its instances for a lost and for a repeated datagram, in either direction, which are proved. *)
-Theorem C04_single_fault_statement_for_losses_and_repeats :
-  forall (blk ws : N) (F : bytes) (dir : bool) (i : N) (k : fault), 0 < blk -> 1 <= ws <= 65535 ->
-  k = NfDrop \/ k = NfDup ->
-  exists fuel,
-    let sc := mk_scfg blk ws 1000000000 1 false [] in
-    let rc := mk_rcfg blk ws 1000000000 1 true [] in
-    let f1 := if dir then [(i, k)] else [] in
-    let f2 := if dir then [] else [(i, k)] in
-    let p := pair_run sc rc f1 f2 fuel (pair_init sc rc f1 F) in
-    r_phase (p_r p) = RDone OutOk /\ recv_final_file rc (p_r p) <> None.
-Proof. exact single_loss_or_repeat_statement. Qed.
+Theorem C04_single_fault : C04_single_fault_statement.
+Proof. exact single_fault_statement_holds. Qed.
 
 Example C04_ex_lost_ack :
   single_fault_ok 1 (pattern_file 17) false 0 NfDrop = true /\ single_fault_ok 2 (pattern_file 17) true 1 NfHold = true.
@@ -164,7 +170,9 @@ Print Assumptions C04_one_lost_data_completes.
 Print Assumptions C04_one_lost_ack_completes.
 Print Assumptions C04_one_repeated_data_completes.
 Print Assumptions C04_one_repeated_ack_completes.
-Print Assumptions C04_single_fault_statement_for_losses_and_repeats.
+Print Assumptions C04_one_reordered_data_completes.
+Print Assumptions C04_one_reordered_ack_completes.
+Print Assumptions C04_single_fault.
 Print Assumptions C04_download_completes.
 Print Assumptions C04_upload_completes.
 Print Assumptions C04_single_fault_small.
